@@ -316,13 +316,22 @@ class FieldMappingTransformationBase(DetectionItemTransformation):
                 self.processing_item_applied(detection_item)
                 result = detection_item
             else:
-                result = SigmaDetection(
-                    [
-                        dataclasses.replace(detection_item, field=field, auto_modifiers=False)
-                        for field in mapping
-                    ],
-                    item_linking=ConditionOR,
-                )
+                copies = [
+                    dataclasses.replace(detection_item, field=field, auto_modifiers=False)
+                    for field in mapping
+                ]
+                for copy in copies:
+                    # A copy takes its original values from the already modified values; keep the
+                    # source item's ones, or disable serialisation if the values were replaced.
+                    if (
+                        detection_item.original_value is None
+                        or fieldref_match
+                        or detection_item.field is None
+                    ):
+                        copy.disable_conversion_to_plain()
+                    else:
+                        copy.original_value = detection_item.original_value.copy()
+                result = SigmaDetection(copies, item_linking=ConditionOR)
         if field_match or fieldref_match:  # field name was changed or field reference was mapped
             if self._pipeline is not None and mapping is not None:
                 self._pipeline.field_mappings.add_mapping(field, mapping)
